@@ -244,6 +244,8 @@ type egressRule struct {
 }
 
 type rule struct {
+	// matchAll is true if the rule lists no peers, i.e. it matches all sources (ingress) or destinations (egress)
+	matchAll          bool
 	ipTable, netTable *ipsetTable
 	tcpPorts          []string
 	udpPorts          []string
@@ -321,7 +323,7 @@ func (p *PolicyManager) peerRule(ports []networkv1.NetworkPolicyPort, peers []ne
 func (p *PolicyManager) namespacedPeerRule(namespace string, ports []networkv1.NetworkPolicyPort,
 	peers []networkv1.NetworkPolicyPeer) *rule {
 	tcpPorts, udpPorts := rulePorts(ports)
-	rule := rule{tcpPorts: tcpPorts, udpPorts: udpPorts}
+	rule := rule{tcpPorts: tcpPorts, udpPorts: udpPorts, matchAll: len(peers) == 0}
 	for j := range peers {
 		tbl, err := p.peerTable(&peers[j], namespace)
 		if err != nil {
@@ -581,6 +583,10 @@ func (p *PolicyManager) writeRules(polices []policy, existingChains map[utilipta
 		if policy.ingressRule != nil {
 			for _, rule := range policy.ingressRule.srcRules {
 				srcTableNames := []string{}
+				if rule.matchAll {
+					// an empty table name stands for no match-set at all
+					srcTableNames = append(srcTableNames, "")
+				}
 				if rule.ipTable != nil {
 					srcTableNames = append(srcTableNames, rule.ipTable.Name)
 				}
@@ -594,6 +600,9 @@ func (p *PolicyManager) writeRules(polices []policy, existingChains map[utilipta
 		if policy.egressRule != nil {
 			for _, rule := range policy.egressRule.dstRules {
 				dstTableNames := []string{}
+				if rule.matchAll {
+					dstTableNames = append(dstTableNames, "")
+				}
 				if rule.ipTable != nil {
 					dstTableNames = append(dstTableNames, rule.ipTable.Name)
 				}
@@ -685,9 +694,13 @@ func writePolicyChainRules(filterRules *bytes.Buffer, policyChainName, policyNam
 	srcTableNames, dstTableNames, tcpPorts, udpPorts []string) {
 	for _, srcTableName := range srcTableNames {
 		for _, dstTableName := range dstTableNames {
-			setRules := []string{
-				"-m", "set", "--match-set", srcTableName, "src",
-				"-m", "set", "--match-set", dstTableName, "dst"}
+			setRules := []string{}
+			if srcTableName != "" {
+				setRules = append(setRules, "-m", "set", "--match-set", srcTableName, "src")
+			}
+			if dstTableName != "" {
+				setRules = append(setRules, "-m", "set", "--match-set", dstTableName, "dst")
+			}
 			if len(tcpPorts) > 0 {
 				args := []string{
 					"-A", policyChainName,
